@@ -210,6 +210,12 @@ fn roundtrip<T: SerdeAPI + Clone>(ctx: &mut Ctx, ty: &str, state: &str, x: &T) -
     let skipped = skipped_fields(x);
     let nonfin = non_finite_paths(x);
     let xv = yv(x);
+    // one evaluation per object taken through the formats; distinct by (type, content); objects in a
+    // default / `valid()` state are the trivial ones
+    ctx.rep.evaluations += 1;
+    if !(state.starts_with("default") && !state.contains(',')) && state != "valid()" {
+        ctx.rep.nontrivial(mix(hash_str(ty) ^ hash_str(&serde_yaml::to_string(&xv).unwrap_or_default())));
+    }
     for f in FORMATS {
         ctx.count("obs.roundtrips");
         ctx.count(&format!("obs.roundtrips.{f}"));
@@ -609,7 +615,6 @@ pub fn run_c17(ctx: &mut Ctx, rng: &mut Rng, _t: bool) {
             roundtrip(ctx, "SpeedLimitTrainSim", "default", &SpeedLimitTrainSim::default());
         }
     }
-    ctx.rep.nontrivial(mix(hash_str(&format!("{}:{}", which, ctx.case))));
     if ctx.rep.samples.len() < 3 {
         ctx.rep.sample(json!({"group": which, "formats": FORMATS, "what": "round trip + idempotence + value equality for every listed type/state; every step index of the short simulation as checkpoint x format, resumed run compared with the uninterrupted one"}));
     }
